@@ -180,7 +180,13 @@ impl DocumentBlock {
             DocumentBlock::OrderedList(list) => {
                 let item = list.items.last_mut().unwrap();
 
-                if item.is_empty() {
+                // text of a tight item goes into the item's open paragraph; after any other
+                // block (code, heading, quote, table ...) it starts a new paragraph instead of
+                // being dropped or glued onto that block
+                if !matches!(
+                    item.last(),
+                    Some(DocumentBlock::Para(_)) | Some(DocumentBlock::Plain(_))
+                ) {
                     item.push(DocumentBlock::Para(Para {
                         line_range: line_range.clone(),
                         inlines: Vec::new(),
@@ -192,7 +198,10 @@ impl DocumentBlock {
             DocumentBlock::BulletList(list) => {
                 let item = list.items.last_mut().unwrap();
 
-                if item.is_empty() {
+                if !matches!(
+                    item.last(),
+                    Some(DocumentBlock::Para(_)) | Some(DocumentBlock::Plain(_))
+                ) {
                     item.push(DocumentBlock::Para(Para {
                         line_range: line_range.clone(),
                         inlines: Vec::new(),
